@@ -27,7 +27,10 @@ PY = "/venv/bin/python"
 
 
 def sh(cmd, cwd=None, env=None, timeout=1800):
-    r = subprocess.run(cmd, cwd=cwd, env=env, capture_output=True, text=True, timeout=timeout)
+    try:
+        r = subprocess.run(cmd, cwd=cwd, env=env, capture_output=True, text=True, timeout=timeout)
+    except subprocess.TimeoutExpired:
+        return 2, f"ANALYSIS-ERROR timed out after {timeout}s (undecided)"
     return r.returncode, r.stdout + r.stderr
 
 
